@@ -280,7 +280,10 @@ func (in *inst) post(c *astutil.Cursor) bool {
 
 	case *ast.ForStmt:
 		st.loops++
-		if n.Init == nil && n.Post == nil {
+		// pkg/db: cursor loops hold SQLite's shared lock; parking a task inside one would make
+		// another task's write spin in SQLite's busy handler in wall-clock time. The package has
+		// no shared Go state, so its loops only get the iteration budget.
+		if n.Init == nil && n.Post == nil && in.pkg.PkgPath != "Havoc/pkg/db" {
 			n.Body.List = append([]ast.Stmt{&ast.ExprStmt{X: in.call("Loop", in.siteLit(n))}}, n.Body.List...)
 		} else {
 			n.Body.List = append([]ast.Stmt{&ast.ExprStmt{X: in.call("LoopN", in.siteLit(n))}}, n.Body.List...)
